@@ -45,6 +45,10 @@ def blt (a b : Nat) : Bool := Nat.ble (Nat.succ a) b
 noncomputable def nth (l : List Nat) (i : Nat) : Nat :=
   List.rec (motive := fun _ => Nat → Nat) (fun _ => 0) (fun hd _ ih i => Nat.rec hd (fun j _ => ih j) i) l i
 
+/-- element `i` of a list of lists ([] past the end) -/
+noncomputable def nthL (l : List (List Nat)) (i : Nat) : List Nat :=
+  List.rec (motive := fun _ => Nat → List Nat) (fun _ => []) (fun hd _ ih i => Nat.rec hd (fun j _ => ih j) i) l i
+
 /-- bit `i` of `x` -/
 def tbit (x i : Nat) : Bool := Nat.beq (Nat.land (Nat.shiftRight x i) 1) 1
 
@@ -61,6 +65,9 @@ structure Cert where
   /-- oracle for the lowest set bit: `lowTab[2^i % lowMod] = i` (every answer is verified where it is used) -/
   lowMod : Nat
   lowTab : Packed
+  /-- the right-hand side of every production, LAST symbol first (the order in which a reduction meets them on the
+      stack), each symbol in the stored form of yyChk (code + 32768); entry p is production p -/
+  rhsTop : List (List Nat)
 
 variable (P : PTables) (C : Cert)
 
@@ -91,8 +98,8 @@ noncomputable def allBits (n : Nat) (f : Nat → Bool) (fuel S : Nat) : Bool :=
     fuel S
 
 /-- fold `f` over the set bits of `S`, lowest first, then `k` on the result; `false` when the fuel does not reach the
-    end of `S` or a guess was wrong -/
-noncomputable def foldBits (n : Nat) (f : Nat → Nat → Nat) (fuel S acc : Nat) (k : Nat → Bool) : Bool :=
+    end of `S`, a guess was wrong, or a set bit does not satisfy `p` -/
+noncomputable def foldBits (n : Nat) (p : Nat → Bool) (f : Nat → Nat → Nat) (fuel S acc : Nat) (k : Nat → Bool) : Bool :=
   Nat.rec (motive := fun _ => Nat → Nat → Bool)
     (fun S acc => and (Nat.beq S 0) (k acc))
     (fun _ ih S acc =>
@@ -100,7 +107,7 @@ noncomputable def foldBits (n : Nat) (f : Nat → Nat → Nat) (fuel S acc : Nat
         cond (Nat.beq S 0) (k acc)
           (force (C.lowIdx n S) fun i =>
             and (Nat.beq (Nat.mod S (Nat.pow 2 (Nat.succ i))) (Nat.pow 2 i))
-              (force (f acc i) fun acc' => ih (Nat.sub S (Nat.pow 2 i)) acc')))
+              (and (p i) (force (f acc i) fun acc' => ih (Nat.sub S (Nat.pow 2 i)) acc'))))
     fuel S acc
 
 /-! ## the driver's table functions on the stored form of the entries -/
@@ -148,30 +155,37 @@ noncomputable def blockAll (f : Nat → Bool) (fuel xi : Nat) : Bool :=
 /-! ## the checker -/
 
 /-- the levels of a reduction in state `s` to nonterminal `nt`: `S` = the states `i` levels above the exposed one,
-    `wsum` = a lower bound of the weight of the entries above them; at the last level every exposed state `t` is
+    `wsum` = a lower bound of the weight of the entries above them, `exp` = the symbols (stored form of yyChk) the
+    states of this and the following levels must have been entered on; at the last level every exposed state `t` is
     checked: the goto target records `t` as a lower neighbour and the measure `Σ weight + rank(top)` decreases -/
-noncomputable def reduceGo (s nt : Nat) (levels S wsum : Nat) : Bool :=
-  Nat.rec (motive := fun _ => Nat → Nat → Bool)
-    (fun S wsum =>
-      force (Nat.add (C.rank.raw s) wsum) fun budget =>
-        allBits C P.n (fun t =>
-          force (gotoK P t nt) fun u =>
-            and (C.isBelow P.n u t) (blt (Nat.add (C.weight.raw u) (C.rank.raw u)) budget)) P.n S)
-    (fun _ ih S wsum =>
-      force S fun S => force wsum fun wsum =>
-        foldBits C P.n (fun acc u => Nat.lor acc (C.row P.n u)) P.n S 0 fun S' =>
-          foldBits C P.n (fun acc x => cond (Nat.ble acc (C.weight.raw x)) acc (C.weight.raw x)) P.n S (Nat.succ C.bound) fun w =>
-            ih S' (Nat.add wsum w))
-    levels S wsum
+noncomputable def reduceGo (s nt : Nat) (levels S wsum : Nat) (exp : List Nat) : Bool :=
+  Nat.rec (motive := fun _ => Nat → Nat → List Nat → Bool)
+    (fun S wsum exp =>
+      List.rec (motive := fun _ => Bool)
+        (force (Nat.add (C.rank.raw s) wsum) fun budget =>
+          allBits C P.n (fun t =>
+            force (gotoK P t nt) fun u =>
+              and (C.isBelow P.n u t) (blt (Nat.add (C.weight.raw u) (C.rank.raw u)) budget)) P.n S)
+        (fun _ _ _ => false) exp)
+    (fun _ ih S wsum exp =>
+      List.rec (motive := fun _ => Bool) false
+        (fun e rest _ =>
+          force S fun S => force wsum fun wsum =>
+            foldBits C P.n (fun _ => true) (fun acc u => Nat.lor acc (C.row P.n u)) P.n S 0 fun S' =>
+              foldBits C P.n (fun x => Nat.beq (P.chk.raw x) e)
+                (fun acc x => cond (Nat.ble acc (C.weight.raw x)) acc (C.weight.raw x)) P.n S (Nat.succ C.bound) fun w =>
+                  ih S' (Nat.add wsum w) rest)
+        exp)
+    levels S wsum exp
 
 /-- one action (stored form `y`) of state `s`: accept / error (`y ≤ 32768`) need nothing; a reduction must name a
-    production, the stack must be deep enough, and `reduceGo` -/
+    production, the stack must be deep enough, and `reduceGo` (with the production's right-hand side) -/
 noncomputable def actionOK (s y : Nat) : Bool :=
   cond (Nat.ble y 32768) true
     (force (unb y) fun p =>
       and (blt p P.r2.size)
         (force (unb (P.r2.raw p)) fun k =>
-          and (Nat.ble k (C.depth.raw s)) (reduceGo P C s (unb (P.r1.raw p)) k (Nat.pow 2 s) 0)))
+          and (Nat.ble k (C.depth.raw s)) (reduceGo P C s (unb (P.r1.raw p)) k (Nat.pow 2 s) 0 (nthL C.rhsTop p))))
 
 /-- per state: the default action is an action, or the yyExca block is there, well formed, and all its actions are -/
 noncomputable def statesOK : Bool :=
@@ -220,6 +234,14 @@ noncomputable def shiftClosed : Bool :=
       cond (or (blt (Nat.add pr C.maxTok) 32768) (Nat.ble (Nat.add 32768 P.act.size) pr)) true
         (allLt (Nat.succ C.maxTok) fun t => shiftK P s t (fun u => C.isBelow P.n u s))
 
+/-- the default goto of every production's nonterminal leads to a state entered on that nonterminal (the explicit
+    gotos say so themselves: the driver compares `yyChk`) -/
+noncomputable def gotoDefaultOK : Bool :=
+  allLt P.r2.size fun p =>
+    cond (Nat.beq p 0) true
+      (force (unb (P.r1.raw p)) fun nt =>
+        Nat.beq (Nat.add (P.chk.raw (unb (P.act.raw (unb (P.pgo.raw nt))))) nt) 32768)
+
 /-- the depth bound is locally consistent, weights and ranks are bounded -/
 noncomputable def depthOK : Bool :=
   allLt P.n fun u =>
@@ -229,6 +251,6 @@ noncomputable def depthOK : Bool :=
 
 noncomputable def check : Bool :=
   sizesOK P C && actOK P && prodOK P && pgoOK P && tokTabOK C P.tok1 && tokTabOK C P.tok2 && tokTabOK C P.tok3 &&
-  tok3OK P && noSpecialShift P && shiftClosed P C && statesOK P C && depthOK P C
+  tok3OK P && noSpecialShift P && shiftClosed P C && statesOK P C && depthOK P C && gotoDefaultOK P
 
 end Csvq.Lalr
